@@ -32,6 +32,8 @@ def item_to_instr(it):
         if not isinstance(v, str) or v == "" or any(c not in "0123456789abcdefABCDEF" for c in v):
             raise BadItem("PUSH value %r" % (v,))
         return ("PUSH", int(v, 16))
+    if name == "PUSH0":
+        return ("PUSH", 0)
     if name in VALUE_KINDS:
         if v is None:
             raise BadItem("%s without value" % name)
